@@ -462,6 +462,12 @@ def judge(prop, case, acc):
                 viol('C06', 'custom-attribute-lost', f'task {t["id"]} attr {k}: {got_!r} != {v!r}')
         if rt.start is None or rt.end is None:
             viol('C06', 'task-without-dates', f'task {t["id"]} start={rt.start} end={rt.end}')
+            if not c.ch[i] and not t['milestone']:
+                est_ = t['estimate'] if t['estimate'] is not None else case['default_estimate']
+                if max(est_ - (t['spent'] or 0), 0) > 0 and not any(r.task is rt for r in rows):
+                    viol('C04', f"conservation/leaf-never-scheduled/{case['dir']}", f'task {t["id"]} has remaining work but came back without dates and without reservations')
+                if t['resource'] not in resmap:
+                    viol('C03', f"resource-missing-from-result/{case['dir']}", f'resource {t["resource"]!r} named by task {t["id"]} not in Schedule.resources')
     if any(v[0] == 'C06' and 'without-dates' in v[1] for v in V) or len(T) != c.n or -1 in T:
         _report(prop, V, case, acc)
         return
@@ -469,6 +475,40 @@ def judge(prop, case, acc):
         base_sig = sig_of(res)
         if c.n >= 2 and rows:
             acc.sig(_shape(case, c), conf_class(case))
+        # looking at the result does not change it
+        rows_before_ = [(r.resource.name, r.date, r.task.id, r.units) for r in res.resource_usage.rows()]
+        try:
+            repr(res.resource_usage)
+            repr(res.schedule)
+        except Exception:
+            pass
+        if [(r.resource.name, r.date, r.task.id, r.units) for r in res.resource_usage.rows()] != rows_before_:
+            viol('C06', 'report-changed-by-printing', 'rows() of the usage report differ before and after repr(report)')
+        if case.get('alias_probe'):
+            # between the two runs the caller edits what accessors handed out and the containers he built the calendars from:
+            # none of that is an input of the second run
+            import pjplan
+            try:
+                d_ = pjplan.DEFAULT_CALENDAR.get_week_day_hours()
+                d_[6] = 8
+                d_[1] = 0
+            except Exception:
+                pass
+            for p_ in b.probes:
+                for c_ in p_.kept:
+                    if isinstance(c_, dict):
+                        for k_ in list(c_):
+                            c_[k_] = 99
+                    else:
+                        c_.clear()
+                        c_.extend([5, 6])
+                try:
+                    g_ = p_.calendar.get_week_day_hours()
+                    for k_ in list(g_):
+                        g_[k_] = 77
+                except Exception:
+                    pass
+            acc.count('alias_edits_between_runs')
         # same scheduler object re-used
         b.shared['events'].clear()
         _, res2, o2, _ = run_calc(case, b, schd)
